@@ -208,9 +208,13 @@ def finish(prop, tier, seed, level, records, stats, summary, t0, assumptions=Non
     try:
         import jsonschema
 
-        schema = json.load(open("/root/.vp/EVIDENCE.schema.json")) if os.path.exists("/root/.vp/EVIDENCE.schema.json") else None
+        sp = os.path.join(env.VERIF, "tools", "EVIDENCE.schema.json")
+        schema = json.load(open(sp)) if os.path.exists(sp) else None
         if schema is not None and not inconclusive:
-            jsonschema.validate(ev, schema)
+            try:
+                jsonschema.validate(ev, schema)
+            except jsonschema.ValidationError as e:
+                inconclusive = "evidence file does not validate against the schema (framework bug): " + e.message[:200]
     except ImportError:
         pass
     for k, e in known_hits.items():
